@@ -447,3 +447,104 @@ func TestFinding37_UpperCaseClosingHTMLIsADocument(t *testing.T) {
 		t.Fatalf("got %q err=%v", out, err)
 	}
 }
+
+// rows 40-58 — defects reported by seeding agents as "already wrong on the unchanged tree", confirmed with probes,
+// expressed as rules that fire before the fix, and repaired (session 4, second batch)
+func TestFinding40to58_SecondBatch(t *testing.T) {
+	type Count int
+	fm := vuego.FuncMap{
+		"first": func(s []any) any { return s[0] },
+		"echo":  func(s string) string { return s },
+	}
+	render := func(files map[string]string, data any) (string, error) {
+		mfs := fstest.MapFS{}
+		for k, v := range files {
+			mfs[k] = &fstest.MapFile{Data: []byte(v)}
+		}
+		var buf bytes.Buffer
+		err := vuego.NewVue(mfs).Funcs(fm).Render(&buf, "p.vuego", data)
+		return strings.Join(strings.Fields(buf.String()), ""), err
+	}
+	cases := []struct {
+		name  string
+		files map[string]string
+		data  any
+		want  string
+		err   string
+	}{
+		{"40 int to string parameter is decimal", map[string]string{"p.vuego": `<p>{{ n | echo }}</p>`}, map[string]any{"n": 65}, "<p>65</p>", ""},
+		{"41 panic in a registered function is an error", map[string]string{"p.vuego": `<p>{{ xs | first }}</p>`}, map[string]any{"xs": []any{}}, "", "first()"},
+		{"42 missing key of map[string]string", map[string]string{"p.vuego": `<p v-if="m.zzz">found</p><p v-else>absent</p>`}, map[string]any{"m": map[string]string{"a": "x"}}, "<p>absent</p>", ""},
+		{"43 zero of a named int is falsy", map[string]string{"p.vuego": `<p v-if="c">t</p><p v-else>f</p><input :disabled="c">`}, map[string]any{"c": Count(0)}, "<p>f</p><input></input>", ""},
+		{"46 nbsp is content", map[string]string{"p.vuego": "<b>a</b>&nbsp;<i>b</i>"}, map[string]any{}, "<b>a</b> <i>b</i>", ""},
+		{"47 static attribute keeps its spaces", map[string]string{"p.vuego": `<input value=" x ">`}, map[string]any{}, `<inputvalue="x"></input>`, ""},
+		{"48 what follows the root template of a component", map[string]string{"p.vuego": `<template include="c.vuego" label="A"></template>`, "c.vuego": "<template :required=\"label\"><button>{{ label }}</button></template>\n<style v-once>.b{}</style>"}, map[string]any{}, "<button>A</button><style>.b{}</style>", ""},
+		{"49 falsy bound prop", map[string]string{"p.vuego": `<template include="c.vuego" :n="zero"></template>`, "c.vuego": `<template :required="n"><b>{{ n + 1 }}</b></template>`}, map[string]any{"zero": 0}, "<b>1</b>", ""},
+		{"50 quoted argument is a string", map[string]string{"p.vuego": `<p>{{ x | default("name") }}|{{ x | default("10") | type }}</p>`}, map[string]any{"name": "VAR"}, "<p>name|string</p>", ""},
+		{"51 variable named t", map[string]string{"p.vuego": `<p>{{ upper(t) }}</p>`}, map[string]any{"t": "tee"}, "<p>TEE</p>", ""},
+		{"52 variable named nan", map[string]string{"p.vuego": `<p>{{ upper(nan) }}</p>`}, map[string]any{"nan": "bread"}, "<p>BREAD</p>", ""},
+		{"53 destructured slot props", map[string]string{"p.vuego": `<template include="l.vuego"><template v-slot="{ item, index }"><i>{{ index }}:{{ item }}</i></template></template>`, "l.vuego": `<ul><li v-for="(i, x) in xs"><slot :item="x" :index="i">-</slot></li></ul>`}, map[string]any{"xs": []string{"a"}}, "<ul><li><i>0:a</i></li></ul>", ""},
+		{"54 slot name with a capital", map[string]string{"p.vuego": `<template include="c.vuego"><template #headerTop><b>H</b></template></template>`, "c.vuego": `<div><slot name="headerTop">fallback</slot></div>`}, map[string]any{}, "<div><b>H</b></div>", ""},
+		{"57 style value nil", map[string]string{"p.vuego": `<p :style="{color: missing, width: w}">x</p>`}, map[string]any{"w": "1px"}, `<pstyle="width:1px;">x</p>`, ""},
+	}
+	for _, tc := range cases {
+		got, err := render(tc.files, tc.data)
+		if tc.err != "" {
+			if err == nil || !strings.Contains(err.Error(), tc.err) {
+				t.Errorf("%s: want an error naming %q, got %v (%q)", tc.name, tc.err, err, got)
+			}
+			continue
+		}
+		want := tc.want
+		if raw := map[string]string{"47 static attribute keeps its spaces": `value=" x "`, "46 nbsp is content": "</b>\n\u00a0<i>"}[tc.name]; raw != "" {
+			// whitespace is squeezed out of the comparison string, so look at the raw output instead
+			mfs := fstest.MapFS{"p.vuego": &fstest.MapFile{Data: []byte(tc.files["p.vuego"])}}
+			var buf bytes.Buffer
+			if e := vuego.NewVue(mfs).Render(&buf, "p.vuego", tc.data); e != nil || !strings.Contains(buf.String(), raw) {
+				t.Errorf("%s: got %q err=%v", tc.name, buf.String(), e)
+			}
+			continue
+		}
+		if err != nil || got != want {
+			t.Errorf("%s: got %q err=%v, want %q", tc.name, got, err, want)
+		}
+	}
+}
+
+// row 55 — C02.R10: a full document given as a string keeps its structure
+func TestFinding55_RenderStringParsesDocuments(t *testing.T) {
+	var buf bytes.Buffer
+	err := vuego.New().RenderString(context.Background(), &buf, "<!DOCTYPE html>\n<html lang=\"en\"><head><title>x</title></head><body class=\"b\"><p>a</p></body></html>")
+	if err != nil || !strings.Contains(buf.String(), "<!DOCTYPE html>") || !strings.Contains(buf.String(), `<html lang="en">`) || !strings.Contains(buf.String(), `<body class="b">`) {
+		t.Fatalf("got %q err=%v", buf.String(), err)
+	}
+}
+
+// rows 45, 56 — C15.R4 / C07.R11
+func TestFinding45and56_CacheEvictionAndLayoutExtension(t *testing.T) {
+	fsys := fstest.MapFS{
+		"page.vuego":         &fstest.MapFile{Data: []byte("---\nlayout: main.vuego\n---\n<p>body</p>")},
+		"layouts/main.vuego": &fstest.MapFile{Data: []byte(`<main v-html="content"></main>`)},
+	}
+	var buf bytes.Buffer
+	if err := vuego.NewFS(fsys).Load("page.vuego").Render(context.Background(), &buf); err != nil || !strings.Contains(buf.String(), "<main><p>body</p>") {
+		t.Fatalf("layout named with its extension: got %q err=%v", buf.String(), err)
+	}
+	// cache: render, delete, recreate under the old mtime with other content
+	mt := time.Date(2024, 1, 2, 3, 4, 5, 0, time.UTC)
+	cfs := fstest.MapFS{"p.vuego": &fstest.MapFile{Data: []byte("<p>one</p>"), ModTime: mt}}
+	v := vuego.NewVue(cfs)
+	buf.Reset()
+	if err := v.Render(&buf, "p.vuego", nil); err != nil || !strings.Contains(buf.String(), "one") {
+		t.Fatalf("first render: %q %v", buf.String(), err)
+	}
+	delete(cfs, "p.vuego")
+	if err := v.Render(&bytes.Buffer{}, "p.vuego", nil); err == nil {
+		t.Fatalf("render of a deleted page must fail")
+	}
+	cfs["p.vuego"] = &fstest.MapFile{Data: []byte("<p>two</p>"), ModTime: mt}
+	buf.Reset()
+	if err := v.Render(&buf, "p.vuego", nil); err != nil || !strings.Contains(buf.String(), "two") {
+		t.Fatalf("recreated page: got %q err=%v", buf.String(), err)
+	}
+}
